@@ -43,7 +43,7 @@ func scenarios(tier string) []engine.Scenario {
 				// rough leaf count: kinds x (1 + output histories) x receiver histories; used only to deal the
 				// scenarios over the 16 workers (scenario i goes to worker i mod 16) in decreasing order of cost
 				r := &t.Rows[ri]
-				c := len(r.Kinds) * len(histories(t, tier))
+				c := len(r.Kinds) * len(histories(t, tier, false))
 				if r.Out != nil {
 					c *= 3 + len(r.Out.Shapes)
 				}
@@ -168,8 +168,8 @@ func main() {
 		Rule: "One scenario per (environment, receiver type, exported method) of the hand-classified method table (verif/lib/optable). " +
 			"A leaf is one call under one (operand kind × aliasing pattern {fresh, out==op_i, op_i==op_j, all equal — those the dynamic types permit} × " +
 			"output history {fresh exact, larger degree, larger level, same shape holding another result, smaller level} × receiver history " +
-			"{new, scratch buffers filled with 2^64-1, scratch buffers filled with a valid-looking pattern, after each other method of the table}); " +
-			"full product. Each leaf also runs the reference execution (new receiver, distinct identical operand copies, fresh zeroed output) under the same PRNG seed. " +
+			"{new, scratch buffers filled with 2^64-1, scratch buffers filled with a valid-looking pattern, after each other method of the table (quick: its first operand kind; thorough: every kind)}); " +
+			"full product; thorough adds, for the plain call, every ordered pair of previous methods. Each leaf also runs the reference execution (new receiver, distinct identical operand copies, fresh zeroed output) under the same PRNG seed. " +
 			"Oracles: (a) identity snapshot (all words, metadata, big-number words, slice headers) of every argument except the designated output equal before/after; " +
 			"(b,c) canonical result bytes equal to the reference, or an error for aliased / unsuitable-output calls. " +
 			"A state is (scenario, kind, alias, output history, receiver history); distinct_nontrivial counts distinct (scenario, kind, result) classes.",
